@@ -212,21 +212,6 @@ func (x *c16) stringLaws(s string, r *core.Rand) {
 				x.bad("truncate", "valid UTF-8 in gives valid UTF-8 out", s, []any{ia, el}, res, "valid UTF-8")
 			}
 		}
-		// defaults: 50 characters, "..."
-		long := strings.Repeat(s, 60/(n+1)+1)
-		lr := runes(long)
-		want := long
-		if len(lr) > 50 {
-			want = string(lr[:47]) + "..."
-		}
-		x.expect("truncate", "defaults to 50 characters and an ellipsis of three dots", long, want)
-		if ia >= 3 {
-			want = s
-			if n > ia {
-				want = string(rs[:ia-3]) + "..."
-			}
-			x.expect("truncate", "default ellipsis is three dots", s, want, ia)
-		}
 	}
 
 	// truncatewords
